@@ -94,6 +94,8 @@ class Shapecheck:
         import lax_model
         lax_model.LABEL_LEAVES.clear()
         lax_model.LIST_ELEM.clear()
+        import loops
+        loops.LOOP_DEPS.clear()
         if hasattr(I, "_templates"):
             I._templates.clear()
         st = State()
